@@ -117,6 +117,37 @@ pub fn ser_ascii<const K: usize>(nd: &mut Nd) {
     }
 }
 
+/// A non-ASCII scalar of UTF-8 length L (every scalar of that length class) directly followed by
+/// an arbitrary ASCII byte, and the same preceded by one: escapes next to multi-byte sequences.
+/// The length class is fixed by the instance so that the second character has a concrete offset (R1).
+pub fn ser_nonascii_ascii<const L: usize, const ASCII_FIRST: bool>(nd: &mut Nd) {
+    let v = match L {
+        2 => nd.u32_in(0x80, 0x7FF),
+        3 => nd.u32_in(0x800, 0xFFFF),
+        _ => nd.u32_in(0x10000, 0x10FFFF),
+    };
+    nd.assume(!(v >= 0xD800 && v <= 0xDFFF));
+    let c = match char::from_u32(v) {
+        Some(c) => c,
+        None => {
+            nd.assume(false);
+            'x'
+        }
+    };
+    let a = nd.ascii();
+    let mut b = [0u8; 5];
+    if ASCII_FIRST {
+        b[0] = a;
+        c.encode_utf8(&mut b[1..]);
+    } else {
+        c.encode_utf8(&mut b[..4]);
+        b[L] = a;
+    }
+    let s = crate::nd::str_of(&b[..L + 1]);
+    let n = diff::<str, 12>(nd, s);
+    cover!(nd, n == 2 + L + 2, "two-byte escape next to the multi-byte scalar");
+}
+
 /// A string of two arbitrary scalars (multi-byte runs around escapes), length symbolic 0..=2.
 pub fn ser_str2(nd: &mut Nd) {
     let n = nd.below(3);
